@@ -252,15 +252,18 @@ def check_property(pid, tier, seed):
     n_corpus = len(scripts)
     generated = cfg["gen"](rng, tier)
     changed = changed_sources()
-    if changed and tier == "quick":
+    # further rounds of the thorough generators with fresh seeds: one in the quick tier, three when
+    # the sources differ from the tree the model was written against (the correspondence has to be
+    # re-established on changed code), eight in the thorough tier
+    rounds = 8 if tier == "thorough" else (3 if changed else 1)
+    if changed:
         log("sources differ from the modelled tree (" + ", ".join(changed[:4]) + "): searching harder")
-        seen = {sc for _, sc in generated}
-        for k in (1, 2):
-            for n, sc in cfg["gen"](random.Random(seed + 100 * k), "thorough"):
-                if sc not in seen:
-                    seen.add(sc)
-                    generated.append((n + f"+e{k}", sc))
-    # the random streams stay out of the region of the recorded known finding (TailClean)
+    seen = {sc for _, sc in generated}
+    for k in range(1, rounds + 1):
+        for n, sc in cfg["gen"](random.Random(seed + 100 * k), "thorough"):
+            if sc not in seen:
+                seen.add(sc)
+                generated.append((n + f"+r{k}", sc))
     # scripts inside the region of the recorded known finding marker-tail (TailClean fails) are
     # judged op by op: where the model meets the specification the property is judged as usual,
     # where the model itself shows the recorded defect only the tie model-code is judged
